@@ -43,6 +43,17 @@ def stackTD [Inhabited α] (ms : List (TD α)) (sd : Nat) : TD α :=
     keys := (ms.head?.map TD.keys).getD [],
     leaf := fun k => T.stack (ms.map (fun m => m.leaf k)) sd }
 
+/-- SPEC: `torch.cat([a, b], d)` of plain tensordicts (same keys) -/
+def TD.cat2 (a b : TD α) (d : Nat) : TD α :=
+  { batch := a.batch.set d (at0 a.batch d + at0 b.batch d), keys := a.keys,
+    leaf := fun k => T.cat2 (a.leaf k) (b.leaf k) d }
+
+/-- SPEC: `torch.cat(tds, d)` -/
+def TD.catList [Inhabited α] : List (TD α) → Nat → TD α
+  | [], _ => default
+  | [a], _ => a
+  | a :: b :: r, d => TD.cat2 a (TD.catList (b :: r) d) d
+
 /-- SPEC: `td.unbind(d)` -/
 def TD.unbind (m : TD α) (d : Nat) : List (TD α) :=
   (List.range (m.batch[d]?.getD 0)).map fun i =>
@@ -275,6 +286,61 @@ def lazyGetCore (L : Lazy α) (ix : List Ix) : Option (LRes α) :=
 def lazyGet (L : Lazy α) (ix : List Ix) : Option (LRes α) :=
   (convertEllipsis ix L.batch.length).bind (lazyGetCore L)
 
+/-! #### rank-2 mask on / spanning the stack dim (has_bool, `mask_unbind[0].ndim > 0`) -/
+
+/-- `_idx` for position `i`: the index with the mask replaced by its `i`-th sub-mask -/
+def subMaskIdx (out : List Ix) (loc : Nat) (m : T Bool) (i : Nat) : List Ix :=
+  out.set loc (.mask (m.select 0 i))
+
+/-- `torch.cat(result, cat_dim)` of the per-position results, which are lazy stacks whose stack
+dim is `cat_dim` (or empty ones): `_lazy_cat` along the stack dim appends the member lists of the
+non-empty operands; when all are empty the result is empty with the first operand's batch size -/
+def catResults (rs : List (LRes α)) (catDim : Nat) : Option (LRes α) :=
+  if rs.any (fun | .member _ => true | .lazy2 .. => true | _ => false) then none else
+  match rs with
+  | [] => none
+  | r0 :: _ =>
+    let ms := rs.flatMap fun | .lazy Li => Li.members | _ => []
+    match ms with
+    | [] => (match r0 with | .empty b => some (.empty b) | _ => none)
+    | _ => (lazyStack ms (catDim : Nat)).map .lazy
+
+/-- mirrors the last has_bool branch of `__getitem__` (_lazy.py, after the fix commits) for a
+rank-2 mask: for every position `i` of the dim the mask starts at (`mask_dim`),
+`self[(:,)*mask_dim + (i,)][_idx]`, then `torch.cat(results, cat_dim)`.  When the mask starts on
+the stack dim the sub-results are (dense) indexed members; when it spans it they are lazy stacks
+indexed by a rank-1 mask on their stack dim.  Other indices: `lazyGetCore`. -/
+def lazyGetCoreM [Inhabited α] (L : Lazy α) (ix : List Ix) : Option (LRes α) :=
+  match splitIndex L ix with
+  | none => none
+  | some st =>
+    if st.hasBool then
+      match st.out[st.maskLoc]? with
+      | some (.mask m) =>
+        if m.shape.length = 2 then
+          let catDim : Int := (st.maskLoc : Int) - st.numSingle
+          if catDim < 0 then none else
+          let cnt := (st.sel.ids L.members.length).length
+          if st.maskDim = L.sd then
+            -- `self[(:,)*stack_dim + (i,)]` is member `i`
+            (allSome ((List.range cnt).map fun i =>
+                (L.members[i]?).bind fun mm => mm.index (subMaskIdx st.out st.maskLoc m i))).bind fun res =>
+              match res with
+              | [] => none
+              | _ => some (.member (TD.catList res catDim.toNat))
+          else
+            (allSome ((List.range cnt).map fun i =>
+                (lazyGetCore L (List.replicate st.maskDim Ix.full ++ [.int i])).bind fun
+                  | .lazy Li => lazyGetCore Li (subMaskIdx st.out st.maskLoc m i)
+                  | _ => none)).bind fun rs => catResults rs catDim.toNat
+        else lazyGetCore L ix
+      | _ => none
+    else lazyGetCore L ix
+
+/-- `lazy[index]` including rank-2 masks on / spanning the stack dim -/
+def lazyGetM [Inhabited α] (L : Lazy α) (ix : List Ix) : Option (LRes α) :=
+  (convertEllipsis ix L.batch.length).bind (lazyGetCoreM L)
+
 /-! ### writes by index -/
 
 /-- SPEC: `t[ix] = v` for a value `v` that already has the indexed shape (torch `index_put_`):
@@ -486,17 +552,6 @@ def lazyPermute (L : Lazy α) (dims : List Int) : Option (Lazy α) :=
 
 /-! ### torch.cat / torch.stack of lazy stacks (_torch_func.py:_lazy_cat, _stack), no `out=` -/
 
-/-- SPEC: `torch.cat([a, b], d)` of plain tensordicts (same keys) -/
-def TD.cat2 (a b : TD α) (d : Nat) : TD α :=
-  { batch := a.batch.set d (at0 a.batch d + at0 b.batch d), keys := a.keys,
-    leaf := fun k => T.cat2 (a.leaf k) (b.leaf k) d }
-
-/-- SPEC: `torch.cat(tds, d)` -/
-def TD.catList [Inhabited α] : List (TD α) → Nat → TD α
-  | [], _ => default
-  | [a], _ => a
-  | a :: b :: r, d => TD.cat2 a (TD.catList (b :: r) d) d
-
 /-- mirrors `_lazy_cat(list_of_tensordicts, dim)` without `out` (_torch_func.py:374-418, after
 the fix commit): same stack dim required; along the stack dim the member lists of the non-empty
 operands are concatenated; along another dim the i-th members are concatenated (dim shifted
@@ -519,5 +574,54 @@ def lazyCat [Inhabited α] (Ls : List (Lazy α)) (dim : Int) : Option (Lazy α) 
       (allSome ((List.range L0.members.length).map fun i =>
           (allSome (Ls.map fun L => L.members[i]?)).map fun col => TD.catList col nd)).bind fun ms =>
         lazyStack ms (L0.sd : Nat)
+
+
+/-- mirrors `_stack(list_of_tensordicts, dim)` (_torch_func.py:447, `out=None`, `lazy_legacy` off)
+for lazy operands that share their stack dim (after the fix commit; operands with different stack
+dims take the generic dense path, outside this model): the i-th members of the operands are
+densely stacked, the results are lazily stacked along the stack dim of the first operand, shifted
+when the new dim lands at or before it. -/
+def lazyStackOp [Inhabited α] (Ls : List (Lazy α)) (dim : Int) : Option (Lazy α) :=
+  match Ls with
+  | [] => none
+  | L0 :: rest =>
+    let r : Int := L0.batch.length
+    let d : Int := if dim < 0 then r + dim + 1 else dim
+    if rest.any (fun L => L.batch != L0.batch) then none      -- "requires congruent batch sizes"
+    else if rest.any (fun L => L.sd != L0.sd) then none
+    else if d < 0 ∨ d > r then none
+    else if rest.any (fun L => L.members.length != L0.members.length) then none   -- `_zip_strict`
+    else
+      let lsd := if d.toNat ≤ L0.sd then L0.sd + 1 else L0.sd
+      let d' := if d.toNat ≤ L0.sd then d.toNat else d.toNat - 1
+      let ms := (List.range L0.members.length).map fun i =>
+        stackTD (Ls.map fun L => L.members[i]?.getD default) d'
+      lazyStack ms (lsd : Nat)
+
+/-! ### update_, insert, append -/
+
+/-- member-level `td.update_(src)`: every key of `src` must exist and is overwritten in place -/
+def TD.update_ (m src : TD α) : Option (TD α) :=
+  if src.keys.all (fun k => m.keys.contains k) then
+    some { m with leaf := fun k => if src.keys.contains k then src.leaf k else m.leaf k }
+  else none
+
+/-- mirrors `update_` (_lazy.py:2947) for a tensordict source: `source.unbind(stack_dim)` zipped
+strictly with the members -/
+def lazyUpdate_ (L : Lazy α) (v : TD α) : Option (Lazy α) :=
+  if v.batch[L.sd]? ≠ some L.members.length then none else
+  (allSome ((L.members.zip (v.unbind L.sd)).map fun p => p.1.update_ p.2)).map fun ms => { L with members := ms }
+
+/-- mirrors `insert(index, tensordict)` (_lazy.py:3070): `list.insert` semantics (a negative
+index counts from the end, out-of-range indices are clamped), the batch size must be that of the
+first member -/
+def lazyInsert (L : Lazy α) (index : Int) (m : TD α) : Option (Lazy α) :=
+  if (match L.members.head? with | some m0 => m.batch != m0.batch | none => false) then none else
+  let n : Int := L.members.length
+  let i : Int := if index < 0 then max 0 (n + index) else min index n
+  some { L with members := L.members.insertIdx i.toNat m }
+
+/-- mirrors `append(tensordict)` = `insert(len(self.tensordicts), tensordict)` -/
+def lazyAppend (L : Lazy α) (m : TD α) : Option (Lazy α) := lazyInsert L L.members.length m
 
 end TdVerif.C08
